@@ -91,6 +91,12 @@ pub fn install_panic_hook() {
         if VERBOSE.load(Ordering::Relaxed) {
             eprintln!("[panic] {msg} at {location} ({repo_symbol:?})");
         }
+        let fatal_kind = msg.contains("unsafe precondition") || msg.contains("in a destructor") || msg.contains("misaligned") || msg.contains("null pointer") || msg.contains("cannot unwind");
+        if fatal_kind || std::thread::panicking() || std::env::var("VERIF_PANIC_TRACE").is_ok() {
+            // the process is about to abort (panic inside a destructor while unwinding, in a
+            // thread-local destructor, ...): say where, nothing else will
+            eprintln!("[panic while panicking / trace] {msg} at {location}\n{}", std::backtrace::Backtrace::force_capture());
+        }
         LAST_PANIC.with(|p| {
             *p.borrow_mut() = Some(PanicInfo { msg, location, repo_symbol, repo_frames })
         });
